@@ -129,7 +129,7 @@ type runner struct {
 	c        *fw.Ctx
 	local    string
 	reported map[string]int
-	t0       time.Time
+	t0       time.Duration
 }
 
 func (r *runner) violation(sig, part, msg string, k kase, again func() string) {
